@@ -19,8 +19,8 @@ from engine.rtcd import unit_isa, fn_isa, dispatch_entries, RANK, FLAG_ISA
 PID = 'C06'
 
 META = {
-    'technique': 'dispatch-table reconstruction from stores to function-pointer globals with their structured CPU-flag guards; instruction set of each installed function taken from the compile flags of its defining unit; set/graph checks (guard >= ISA, fallback is baseline, called => unconditionally set, mask dominates guards); lane-capacity bound for 16-bit SIMD accumulators from macro-instantiation arguments and the count of 16-bit reductions in each finaliser',
-    'text': 'Decides that the run-time dispatch machinery is sound for every one of the ~1600 table entries: no kernel is installed under a weaker CPU guard than the instruction set it was compiled for, every fallback slot is baseline code, every pointer that is called is always set, and the flags used by the guards are masked by the detected CPU capabilities. These are necessary conditions for instruction-set independent output (a violation executes illegal instructions or silently changes which level runs); bit-exactness of the kernels themselves is not decided, with one exception where the failure mode is specific to SIMD and has a closed-form bound: the 16-bit sum lanes of the AVX2 variance kernels cannot wrap for any 8-bit input (C06.ACC16).',
+    'technique': 'dispatch-table reconstruction from stores to function-pointer globals with their structured CPU-flag guards; instruction set of each installed function taken from the compile flags of its defining unit; set/graph checks (guard >= ISA, fallback is baseline, called => unconditionally set, mask dominates guards); lane-capacity bound for 16-bit SIMD accumulators from macro-instantiation arguments and the count of 16-bit reductions in each finaliser; lane-width typestate over intrinsic calls (full 64-bit products accumulated with a narrower lane addition) and signed-saturation/unsigned-use contradiction lint, both flow-sensitive through reaching definitions, shared with C07',
+    'text': 'Decides that the run-time dispatch machinery is sound for every one of the ~1600 table entries: no kernel is installed under a weaker CPU guard than the instruction set it was compiled for, every fallback slot is baseline code, every pointer that is called is always set, and the flags used by the guards are masked by the detected CPU capabilities. These are necessary conditions for instruction-set independent output (a violation executes illegal instructions or silently changes which level runs); bit-exactness of the kernels themselves is not decided, with one exception where the failure mode is specific to SIMD and has a closed-form bound: the 16-bit sum lanes of the AVX2 variance kernels cannot wrap for any 8-bit input (C06.ACC16). Two further arithmetic contradictions are decided kernel by kernel because a kernel that differs from its C reference makes the output depend on the instruction set: a signed-saturating sum or pack consumed as unsigned, and 64-bit products accumulated in 32-bit (or narrower) lanes.',
     'note': 'x86-64 baseline (<= SSE2) counts as the reference level: SSE2 is architecturally guaranteed and the project compiles its "C" units for it; AVX-512 slots are compiled out in this configuration (EN_AVX512_SUPPORT=0)',
     'ref': 'DESIGN.md section 5 C06',
 }
